@@ -15,7 +15,7 @@ from vmon.ref import geom, pointgroups as pg
 
 ID = 'C22'
 RULE = ('random crystals (all 11 3-D and 5 2-D lattice systems, 1-3 orbits, 1-2 species, 40% in a random rigid orientation, plus '
-        'skewed strained FCC/BCC/hexagonal cells; 30% re-described in a singly sheared non-reduced cell with noreduce=True; reduction clauses only when the repository still finds the complete group there) x random meshes (each division 1..7 (3-D) / 1..12 (2-D); isotropic even, isotropic '
+        'skewed strained FCC/BCC/hexagonal cells, and 30% symmetric lattices with a generic low-symmetry decoration; 30% re-described in a singly sheared non-reduced cell with noreduce=True; reduction clauses only when the repository still finds the complete group there) x random meshes (each division 1..7 (3-D) / 1..12 (2-D); isotropic even, isotropic '
         'odd, anisotropic mixed) x 6 random lattice-vector shells per mesh; non-trivial = mesh with more than one point; '
         'distinct = (kind, |G|, mesh)')
 ASSUMPTIONS = ['a fullkptmesh call that has not returned after 60 s (normal: < 1 s) is reported as non-terminating',
@@ -24,9 +24,10 @@ ASSUMPTIONS = ['a fullkptmesh call that has not returned after 60 s (normal: < 1
                'averages compared to 1e-12 x (number of terms in the shell); mesh points compared in reduced coordinates to 1e-9']
 REQUIRED_OBS = {'meshes_checked': 100, 'eval:C22:in-first-BZ': 100, 'eval:C22:full-mesh-complete': 100, 'eval:C22:weights-sum': 100,
                 'eval:C22:invariant-average': 500, 'mesh:even': 10, 'mesh:odd': 10, 'mesh:anisotropic': 20, 'dim2_meshes': 20,
-                'dim3_meshes': 20, 'reduced_smaller': 50, 'folded_points': 100, 'boundary_points': 20, 'nonzero_averages': 100, 'sheared_cells': 8}
+                'dim3_meshes': 20, 'reduced_smaller': 50, 'folded_points': 100, 'boundary_points': 20, 'nonzero_averages': 100, 'sheared_cells': 8, 'low_symmetry_on_symmetric_lattice': 10}
 CASE_TIMEOUT = 600
 EXTRA_KINDS = ('strainF', 'strainI', 'strainH3', 'strainH2')
+LOWSYM_KINDS = ('cubicP', 'cubicF', 'cubicI', 'tetP', 'ortho', 'hex', 'square', 'rect', 'hex2', 'crect')
 
 
 MESH_DEADLINE = 60
@@ -67,6 +68,19 @@ def make_crystal(rng, crystal):
         dim = L.shape[0]
         basis = [[np.zeros(dim)]] if rng.uniform() < 0.5 else [[np.zeros(dim), rng.uniform(0.3, 0.7, size=dim)]]
         return crystal.Crystal(L, basis), kind, False
+    if rng.uniform() < 0.3:
+        # symmetric lattice, generic decoration: the mesh has more symmetry than the crystal, so merging points that
+        # are related by a lattice symmetry only would be visible
+        kind = str(rng.choice(LOWSYM_KINDS))
+        L = gen.lattice(kind, rng)
+        dim = L.shape[0]
+        for attempt in range(50):
+            pos = [rng.uniform(size=dim) for _ in range(int(rng.integers(2, 4)))]
+            if gen.mindist(L, pos) > 0.2: break
+        if rng.uniform() < 0.4:      # keep the inversion centre only
+            pos = [pos[0], -pos[0] + 1.] + ([np.zeros(dim)] if gen.mindist(L, [pos[0], -pos[0] + 1., np.zeros(dim)]) > 0.2 else [])
+            return crystal.Crystal(L, [[np.array(u) for u in pos[:2]]] + ([[pos[2]]] if len(pos) > 2 else [])), kind + '+inv', False
+        return crystal.Crystal(L, [[np.array(u) for u in pos[:-1]], [np.array(pos[-1])]]), kind + '+generic', False
     spec = gen.rand_crystal_spec(rng, nchem=int(rng.integers(1, 3)), maxatoms=6)
     dim = spec['dim']
     rotated = bool(rng.uniform() < 0.4)
@@ -105,6 +119,7 @@ def run_case(case):
             R = L @ M @ Linv
             if not any(np.allclose(R, R2, atol=1e-9) for R2 in rots): rots.append(R)
         mon.seen('point_group_orders', len(rots))
+        if '+generic' in kind or '+inv' in kind: mon.count('low_symmetry_on_symmetric_lattice')
         ctags = []
         reduction_ok = True
         if rng.uniform() < case.get('psheared', 0.3):
